@@ -410,6 +410,65 @@ int main(int argc, char** argv) {
         int accept = (na == nb && !memcmp(a, b, na)) || (pre && na >= 4 && na < nb && !memcmp(a, b, na));
         if ((r == 0) != accept) { printf("REPRODUCED: comparer returned %d, the acceptance rule says %s\n", r, accept ? "accept" : "reject"); fails++; }
 #endif
+    } else if (!strcmp(cmd, "api_battery") && argc == 4) {
+        /* api_battery <n> <seed>: native REFUTATION SEARCH through the public API only, used when a contract unit of an API
+           function is undecided (refactored beyond what its harness can follow) or its counterexample is not realisable: n
+           pseudo-random canonical seeds (fixed generator) x language x coin x mask; for each one
+             encode -> phrase equals the published layout; decode_explicit / decode -> the identical seed (or MULT_LANG);
+             store -> the image specification; load -> the identical seed; keygen inputs equal for the seed and its decoded copy;
+             crypt -> masked secret, flag toggled, check value recomputed; crypt twice -> the original seed.
+           A failure is a concrete failing input on the real code; a pass proves nothing. */
+        unsigned long n_ = num(argv[2]); uint64_t x = num(argv[3]) * 6364136223846793005ULL + 1442695040888963407ULL;
+        #define RND() (x = x * 6364136223846793005ULL + 1442695040888963407ULL, (unsigned)(x >> 33))
+        int nl = polyseed_get_num_langs();
+        for (unsigned long it = 0; it < n_ && fails < 3; ++it) {
+            polyseed_data s; memset(&s, 0, sizeof s);
+            for (int i = 0; i < 19; ++i) s.secret[i] = (uint8_t)RND();
+            s.secret[18] &= 0x3f;
+            s.birthday = RND() & 1023; s.features = (RND() & 1) ? 16 : 0;
+            s.checksum = spec_check(&s);
+            unsigned coin = RND() & 2047; const polyseed_lang* l = polyseed_get_lang((int)(it % (unsigned)nl));
+            char what[400]; snprintf(what, sizeof what, "seed(birthday=%u features=%u secret[0..3]=%02x%02x%02x%02x) coin=%u lang=%s", s.birthday, s.features, s.secret[0], s.secret[1], s.secret[2], s.secret[3], coin, l->name_en);
+            #define BFAIL(msg) do { printf("REPRODUCED: %s -- %s\n", msg, what); fails++; } while (0)
+            /* encode */
+            static char expect[4096]; expect[0] = 0;
+            for (unsigned i = 0; i < 16; ++i) { if (i) strcat(expect, l->separator); strcat(expect, l->words[spec_coeff_raw(s.secret, s.birthday, s.features, (unsigned)s.checksum, coin, i) & 2047]); }
+            polyseed_str out; polyseed_data snap = s;
+            size_t n = polyseed_encode(&s, l, coin, out);
+            if (strcmp(out, expect) || n != strlen(out)) { BFAIL("encode: phrase or returned length differs from the published layout"); continue; }
+            if (memcmp(&snap, &s, sizeof s)) { BFAIL("encode modified the seed"); continue; }
+            /* decode */
+            polyseed_data* back = NULL; const polyseed_lang* lo = NULL;
+            polyseed_status st = polyseed_decode_explicit(out, coin, l, &back);
+            if (!(st == POLYSEED_OK && back && back->birthday == s.birthday && back->features == s.features && back->checksum == s.checksum && !memcmp(back->secret, s.secret, 32))) { BFAIL("decode_explicit(encode(seed)) is not the seed"); if (back) polyseed_free(back); continue; }
+            /* keygen inputs */
+            uint8_t k1[32], k2[32]; uint8_t pw1[64], salt1[64]; size_t pl1, sl1;
+            polyseed_keygen(&s, coin, sizeof k1, k1); memcpy(pw1, d_kdf_pw, 64); memcpy(salt1, d_kdf_salt, 64); pl1 = d_kdf_pwlen; sl1 = d_kdf_saltlen;
+            polyseed_keygen(back, coin, sizeof k2, k2);
+            if (pl1 != 32 || sl1 != 32 || d_kdf_pwlen != 32 || d_kdf_saltlen != 32 || memcmp(pw1, d_kdf_pw, 32) || memcmp(salt1, d_kdf_salt, 32) || d_kdf_iter != 10000) BFAIL("key-derivation inputs differ between the seed and its decoded copy");
+            for (int i = 0; i < 32; ++i) if (d_kdf_salt[i] != spec_kdf_salt(s.birthday, s.features, coin, (unsigned)i)) { BFAIL("key-derivation salt differs from the published layout"); break; }
+            polyseed_free(back); back = NULL;
+            st = polyseed_decode(out, coin, &lo, &back);
+            if (!((st == POLYSEED_ERR_MULT_LANG && !back) || (st == POLYSEED_OK && back && lo == l && back->checksum == s.checksum && !memcmp(back->secret, s.secret, 32)))) BFAIL("decode(encode(seed)) is neither the seed with its language nor MULT_LANG");
+            if (back) polyseed_free(back);
+            /* store / load */
+            polyseed_storage buf; polyseed_store(&s, buf);
+            for (int i = 0; i < 32; ++i) if (buf[i] != spec_image(&s, i)) { BFAIL("store: byte differs from the image specification"); break; }
+            back = NULL; st = polyseed_load(buf, &back);
+            if (!(st == POLYSEED_OK && back && back->birthday == s.birthday && back->features == s.features && back->checksum == s.checksum && !memcmp(back->secret, s.secret, 32))) BFAIL("load(store(seed)) is not the seed");
+            if (back) polyseed_free(back);
+            /* crypt */
+            for (int i = 0; i < 32; ++i) d_mask[i] = (uint8_t)RND();
+            polyseed_data c = s; polyseed_crypt(&c, "password");
+            int okc = c.features == (s.features ^ 16u) && c.birthday == s.birthday && c.checksum == spec_check(&c) && c.secret[18] == (uint8_t)((s.secret[18] ^ d_mask[18]) & 0x3f);
+            for (int i = 0; i < 18; ++i) okc = okc && c.secret[i] == (uint8_t)(s.secret[i] ^ d_mask[i]);
+            for (int i = 19; i < 32; ++i) okc = okc && c.secret[i] == 0;
+            if (!okc) { BFAIL("crypt: result is not the masked seed with the flag toggled and the check value recomputed"); continue; }
+            polyseed_crypt(&c, "password");
+            if (memcmp(&c, &s, sizeof s)) BFAIL("crypt twice with the same mask does not restore the seed");
+            if (d_live != 0 || d_foreign_free) { BFAIL("allocator ledger: block leaked or foreign/double free"); d_live = 0; }
+        }
+        printf("%lu random seeds tried\n", n_);
     } else if (!strcmp(cmd, "encode_worst") && argc == 5) {
         /* encode_worst <lang index> <word index any> <word index even>: longest-word phrase under ASan */
         int li = num(argv[2]); unsigned wa = num(argv[3]) & 2047, we = num(argv[4]) & 2046;
